@@ -372,6 +372,10 @@ def run_check(P, tier, seed, replay=None, report_as=None):
         corpus = P.corpus() if hasattr(P, 'corpus') else load_corpus(pid)
         cases = corpus + P.gen_cases(rng, tier)
         corpus_n = len(corpus)
+        if getattr(P, 'REPEAT_REVERSED', False):
+            # functions that must not depend on earlier calls: every case is evaluated a second time, later in the same driver
+            # processes and in reversed order, and judged again (state surviving between calls shows as a second, different answer)
+            cases = cases + [json.loads(json.dumps(c)) for c in reversed(cases)]
     outs = run_impl(P.IMPL, cases, hashseed=os.environ.get('VERIF_HASHSEED', '0'), **getattr(P, 'IMPL_KW', {}))
     driver_errors = [i for i, o in enumerate(outs) if isinstance(o, dict) and 'driver_error' in o]
     disagree, specfail = [], []
